@@ -2,6 +2,7 @@ SPECIFICATION Spec
 CONSTANT Kind = "single"
 CONSTANT MaxDepth = 4
 CONSTANT Deviation = "none"
+CONSTANT Setters = FALSE
 CONSTANT Export = FALSE
 INVARIANT TypeOK
 INVARIANT C10_Fresh
